@@ -270,6 +270,24 @@ Definition decode_op (l : list Z) : op :=
   | _ => Nop
   end.
 
+(* k requests arriving together at one instant. Each runs activateFallback as one critical section under the breaker's
+   lock, so whatever order they take the lock in, the burst is k consecutive Arrive steps (no hint: the harness issues
+   bursts only in standby and inside the fallback period, where no ramp is consulted). Returns the number passed on. *)
+Fixpoint burst (c : cfg) (s : st) (k : nat) : st * Z :=
+  match k with
+  | O => (s, 0)
+  | S k' => let '(s1, v) := arrive c s None in
+            let '(s2, n) := burst c s1 k' in
+            (s2, n + match v with Pass => 1 | _ => 0 end)
+  end.
+
+(* [4; k] Burst -> [number passed; state; #onTripped; #onStandby]; everything else as decode_op says *)
+Definition xstep (c : cfg) (s : st) (l : list Z) : st * list Z :=
+  match l with
+  | [4; k] => let '(s', n) := burst c s (Z.to_nat k) in (s', [n; state_code (state s'); nTripped s'; nStandby s'])
+  | _ => ostep c s (decode_op l)
+  end.
+
 Definition dec_cmp (o : Z) : cmpop :=
   if o =? 0 then Lt else if o =? 1 then Le else if o =? 2 then Gt else if o =? 3 then Ge
   else if o =? 4 then Eq else Ne.
@@ -313,4 +331,4 @@ Definition decode_cfg (l : list Z) : Z * cfg :=
 
 Definition run (cfgl : list Z) (ops : list (list Z)) : list (list Z) :=
   let '(t0, c) := decode_cfg cfgl in
-  run_from (ostep c) (init t0) (map decode_op ops).
+  run_from (xstep c) (init t0) ops.
